@@ -47,24 +47,49 @@ def run(ctx):
             raise AnalysisError(f"{f}: encoder definition idiom not recognised")
         enc = enc_defs[0].targets[0].id
         hg = norm(enc_defs[0].value.func.value)
-        res.check(hg == "hypergraph", "K-ENC", f, norm(enc_defs[0]), "same-hypergraph", "the encoder is not the mapping of the hypergraph whose matrix is built", loc(v.fi, enc_defs[0]))
+        first_param = v.fi.params[0].arg if v.fi.params else "hypergraph"
+        res.check(hg == first_param, "K-ENC", f, norm(enc_defs[0]), "same-hypergraph", "the encoder is not the mapping of the hypergraph whose matrix is built", loc(v.fi, enc_defs[0]))
         tr = [n for n in walk_no_nested(v.fi.node) if isinstance(n, ast.Call) and isinstance(n.func, ast.Attribute) and n.func.attr == "transform"]
-        res.check(bool(tr) and all(norm(t.func.value) == enc for t in tr), "K-ENC", f, norm(tr[0]) if tr else "encoder.transform(hye)", "rows", "hyperedges are not relabelled with the hypergraph's encoder before the incidence is built", loc(v.fi, tr[0] if tr else v.fi.node))
+        if not tr:
+            res.unknown("K-ENC", f, "encoder.transform(hye)", "rows", "no relabelling call recognised", loc(v.fi, v.fi.node))
+        else:
+            res.check(all(norm(t.func.value) == enc for t in tr), "K-ENC", f, norm(tr[0]), "rows", "hyperedges are not relabelled with the hypergraph's encoder before the incidence is built", loc(v.fi, tr[0]))
         for t in tr:
-            src = v.enclosing(t, (ast.ListComp, ast.For))
-            it = src.generators[0].iter if isinstance(src, ast.ListComp) else (src.iter if src is not None else None)
-            ok = it is not None and isinstance(it, ast.Call) and isinstance(it.func, ast.Attribute) and it.func.attr == "get_edges" and norm(it.func.value) == hg and not it.args and not it.keywords
-            res.check(ok, "K-ENC", f, norm(it) if it is not None else norm(t), "columns", "the incidence columns are not the hyperedges of get_edges() of the same hypergraph, in that order", loc(v.fi, t))
-        inv = [n for n in walk_no_nested(v.fi.node) if isinstance(n, ast.Call) and isinstance(n.func, ast.Name) and n.func.id == "get_inverse_mapping"]
-        res.check(bool(inv) and all(i.args and norm(i.args[0]) == enc for i in inv), "K-ENC", f, norm(inv[0]) if inv else "get_inverse_mapping(encoder)", "mapping", "the returned node mapping is not the inverse of the encoder that produced the rows", loc(v.fi, inv[0] if inv else v.fi.node))
+            src = v.enclosing(t, (ast.ListComp, ast.For, ast.GeneratorExp))
+            it = src.generators[0].iter if isinstance(src, (ast.ListComp, ast.GeneratorExp)) else (src.iter if src is not None else None)
+            if it is None:
+                res.unknown("K-ENC", f, norm(t), "columns", "the loop over the hyperedges was not recognised", loc(v.fi, t))
+                continue
+            it = v.inline(it)
+            ok = isinstance(it, ast.Call) and isinstance(it.func, ast.Attribute) and it.func.attr == "get_edges" and norm(it.func.value) == hg and not it.args and not it.keywords
+            res.check(ok, "K-ENC", f, norm(it), "columns", "the incidence columns are not the hyperedges of get_edges() of the same hypergraph, in that order", loc(v.fi, t))
+        # the mapping returned next to the matrix: built from the same encoder, and of kind {row index: label}
+        maps = []
+        for r in [n for n in walk_no_nested(v.fi.node) if isinstance(n, ast.Return) and n.value is not None]:
+            for e in ([r.value.body, r.value.orelse] if isinstance(r.value, ast.IfExp) else [r.value]):
+                if isinstance(e, ast.Tuple) and len(e.elts) == 2:
+                    maps.append((r, e.elts[1]))
+        if not maps:
+            res.unknown("K-ENC", f, "return incidence, mapping", "mapping", "no (matrix, mapping) return recognised", loc(v.fi, v.fi.node))
+        for r, m in maps:
+            e = v.inline(m, depth=1) if isinstance(m, ast.Name) else m
+            encs = {x.id for x in ast.walk(e) if isinstance(x, ast.Name)}
+            k = unrole(v.kind(m))
+            if enc not in encs:
+                other = [x for x in ast.walk(e) if isinstance(x, ast.Call) and isinstance(x.func, ast.Attribute) and x.func.attr == "get_mapping"]
+                res.add("K-ENC", f, norm(r), "mapping", "violation" if other or isinstance(e, (ast.Dict, ast.Constant)) else "unknown", "the returned node mapping is not the inverse of the encoder that produced the rows", loc(v.fi, r))
+                continue
+            fwd = isinstance(k, Dct) and isinstance(k.key, Atom) and k.key.name == "NODE"
+            res.add("K-ENC", f, norm(r), "mapping", "violation" if fwd or norm(e) == enc else "ok", "the returned node mapping is not the inverse ({row index: label}) of the encoder that produced the rows" if fwd or norm(e) == enc else "", loc(v.fi, r))
         gim = ctx.view("labeling.get_inverse_mapping")
         rk = unrole(ctx.interp.analyse_entry(gim.fi))
         good = isinstance(rk, Dct) and rk.key == IDX and isinstance(rk.val, Atom) and rk.val.name == "NODE"
-        res.add("K-ENC", gim.fi.short, "return kind " + repr(rk), "index->label", "ok" if good else ("unknown" if isinstance(rk, _Top) else "violation"), "" if good else "get_inverse_mapping does not return a {row index: label} dict", loc(gim.fi, gim.fi.node))
-        hk = v.kind(next((n.value for n in walk_no_nested(v.fi.node) if isinstance(n, ast.Assign) and isinstance(n.targets[0], ast.Name) and n.targets[0].id == "hye_list"), None)) if any(isinstance(n, ast.Assign) and isinstance(n.targets[0], ast.Name) and n.targets[0].id == "hye_list" for n in walk_no_nested(v.fi.node)) else None
-        if hk is not None:
+        wrong = isinstance(rk, Dct) and ((isinstance(rk.key, Atom) and rk.key.name == "NODE") or rk.val == IDX)
+        res.add("K-ENC", gim.fi.short, "return kind " + repr(rk), "index->label", "ok" if good else ("violation" if wrong else "unknown"), "" if good else "get_inverse_mapping does not return a {row index: label} dict", loc(gim.fi, gim.fi.node))
+        for c in [n for n in walk_no_nested(v.fi.node) if isinstance(n, ast.Call) and isinstance(n.func, ast.Name) and n.func.id == "hye_list_to_binary_incidence" and n.args]:
+            hk = v.kind(c.args[0])
             e = elem_of(elem_of(hk))
-            res.add("K-ENC", f, "hye_list " + repr(hk), "row-kind", "ok" if e == IDX else ("unknown" if isinstance(e, _Top) else "violation"), "" if e == IDX else f"the relabelled hyperedges hold {e!r} values, not row indices", loc(v.fi, v.fi.node))
+            res.add("K-ENC", f, "hye_list " + repr(hk), "row-kind", "ok" if e == IDX else ("unknown" if isinstance(e, _Top) else "violation"), "" if e == IDX else f"the relabelled hyperedges hold {e!r} values, not row indices", loc(v.fi, c))
     # ---- R-ROWORDER on sparse.diags(<list>) in degree_matrix
     with res.guard("R-ROWORDER on sparse.diags(<list>) in degree_matrix"):
         v = ctx.view("linalg.degree_matrix")
@@ -106,35 +131,58 @@ def run(ctx):
             v = ctx.view(d)
             f = v.fi.short
             rets = [n for n in walk_no_nested(v.fi.node) if isinstance(n, ast.Return) and n.value is not None]
+            if not rets:
+                raise AnalysisError(f"{f}: no return")
+
+            def clears_diag_expr(e, name=None):
+                """`X - diags(X.diagonal())` (X any expression, or the given name)"""
+                if isinstance(e, ast.BinOp) and isinstance(e.op, ast.Sub):
+                    right = v.inline(e.right) if not hasattr(e.right, "_no_inline") else e.right
+                    txt = norm(right)
+                    return "diags" in txt and ".diagonal()" in txt and (norm(e.left) + ".diagonal()") in txt
+                return False
+
+            def clearing_helper(call):
+                """a repo helper that returns its argument minus its own diagonal"""
+                for callee in ctx.callees(v.fi, getattr(call, "_orig", call)):
+                    for r in ast.walk(callee.node):
+                        if isinstance(r, ast.Return) and r.value is not None:
+                            cv = ctx.view(callee)
+                            e = cv.inline(r.value)
+                            if isinstance(e, ast.BinOp) and isinstance(e.op, ast.Sub) and "diags" in norm(e.right) and norm(e.left) + ".diagonal()" in norm(e.right):
+                                return True
+                return False
+
             clear = set()
+            opaque = set()
             for n in walk_no_nested(v.fi.node):
                 if isinstance(n, ast.Call) and isinstance(n.func, ast.Attribute) and n.func.attr == "setdiag" and n.args and isinstance(n.args[0], ast.Constant) and n.args[0].value == 0:
                     clear.add((v.cfg_id(n), norm(n.func.value)))
-                if isinstance(n, ast.Assign) and isinstance(n.targets[0], ast.Name) and isinstance(n.value, ast.BinOp) and isinstance(n.value.op, ast.Sub) and norm(n.value.left) == n.targets[0].id:
-                    # X = X - <diag of X>
-                    r = n.value.right
-                    rsrc = r
-                    if isinstance(r, ast.Name):
-                        defs = [m for m in walk_no_nested(v.fi.node) if isinstance(m, ast.Assign) and isinstance(m.targets[0], ast.Name) and m.targets[0].id == r.id]
-                        rsrc = defs[-1].value if defs else r
-                    names = {norm(x) for x in ast.walk(rsrc)} if rsrc is not None else set()
-                    dsrc = set()
-                    for x in ast.walk(rsrc):
-                        if isinstance(x, ast.Name):
-                            defs = [m for m in walk_no_nested(v.fi.node) if isinstance(m, ast.Assign) and isinstance(m.targets[0], ast.Name) and m.targets[0].id == x.id]
-                            for dd in defs:
-                                dsrc |= {norm(y) for y in ast.walk(dd.value)}
-                    if any("diags" in s for s in names) and (f"{n.targets[0].id}.diagonal()" in names | dsrc):
-                        clear.add((v.cfg_id(n), n.targets[0].id))
-            if not rets:
-                raise AnalysisError(f"{f}: no return")
+                if isinstance(n, ast.Assign) and isinstance(n.targets[0], ast.Name):
+                    nm = n.targets[0].id
+                    if clears_diag_expr(n.value):
+                        clear.add((v.cfg_id(n), nm))
+                    elif isinstance(n.value, ast.Call) and clearing_helper(n.value):
+                        clear.add((v.cfg_id(n), nm))
+                    elif isinstance(n.value, ast.Call) and ctx.callees(v.fi, n.value) and not (isinstance(n.value.func, ast.Name) and n.value.func.id in ("incidence_matrix", "incidence_matrix_by_order", "binary_incidence_matrix")):
+                        opaque.add(nm)
             for r in rets:
-                var = r.value.elts[0] if isinstance(r.value, ast.Tuple) else r.value
-                name = norm(var)
-                ids = {i for i, nm in clear if nm == name}
-                rid = v.cfg_id(r)
-                ok = bool(ids) and not v.cfg.reaches_without(v.cfg.entry, rid, ids)
-                res.check(ok, "M-DIAG", f, norm(r), name, "an adjacency matrix is returned without its diagonal having been cleared (B B^T has the node degrees on the diagonal)", loc(v.fi, r))
+                exprs = [r.value.body, r.value.orelse] if isinstance(r.value, ast.IfExp) else [r.value]
+                for e in exprs:
+                    var = e.elts[0] if isinstance(e, ast.Tuple) else e
+                    name = norm(var)
+                    ids = {i for i, nm in clear if nm == name}
+                    rid = v.cfg_id(r)
+                    ok = bool(ids) and not v.cfg.reaches_without(v.cfg.entry, rid, ids)
+                    if not ok and not isinstance(var, ast.Name):
+                        ok = clears_diag_expr(var) or (isinstance(var, ast.Call) and clearing_helper(var))
+                        if not ok:
+                            res.unknown("M-DIAG", f, norm(r), name[:60], "the returned matrix expression was not recognised", loc(v.fi, r))
+                            continue
+                    if not ok and name in opaque and not ids:
+                        res.unknown("M-DIAG", f, norm(r), name, "the matrix comes from a helper whose handling of the diagonal is not decided", loc(v.fi, r))
+                        continue
+                    res.check(ok, "M-DIAG", f, norm(r), name, "an adjacency matrix is returned without its diagonal having been cleared (B B^T has the node degrees on the diagonal)", loc(v.fi, r))
     # ---- T-SNAP
     with res.guard("T-SNAP"):
         for d in ("linalg.temporal_adjacency_matrix", "linalg.temporal_adjacency_matrix_by_order"):
